@@ -67,6 +67,13 @@ var c19Conds = []c19Cond{
 		}
 		return dir, nil
 	}},
+	{id: "stale-temp-files", shortWait: true, names: []string{"t"}, setup: func(dir string) (string, func()) {
+		for n, b := range map[string]string{"t.csv": "c1\n1\n", "t.json": `[{"c1":1}]`, "t.jsonl": "{\"c1\":1}\n", "t.txt": "c1\n1 \n"} {
+			os.WriteFile(filepath.Join(dir, n), []byte(b), 0644)
+			os.WriteFile(filepath.Join(dir, "."+n+".temp"), nil, 0644)
+		}
+		return dir, nil
+	}},
 	{id: "stale-read-lock-files", shortWait: true, names: []string{"t"}, setup: func(dir string) (string, func()) {
 		for n, b := range map[string]string{"t.csv": "c1\n1\n", "t.json": `[{"c1":1}]`, "t.jsonl": "{\"c1\":1}\n", "t.txt": "c1\n1 \n"} {
 			os.WriteFile(filepath.Join(dir, n), []byte(b), 0644)
